@@ -167,6 +167,7 @@ class Check(PropertyCheck):
     module = "Props.C24"
     theorems = ["C24_edit_graph_acyclic", "C24_walk_terminates", "C24_current_iff_not_superseded",
                 "C24_refines_set", "C24_refines_set_fixed", "C24_refines_set_shipped_partial",
+                "C24_refines_set_deduped_partial", "C24_same_pair_twice_deduped",
                 "C24_readd_after_delete", "C24_listing_nodup_fixed_bounded",
                 "C24_dup_listing_refuted", "C24_null_delete_refuted", "C24_same_pair_twice_refuted",
                 "C24_nonvacuous"]
